@@ -852,7 +852,10 @@ class Engine:
 
     def s_With(self, ctx, fr, s):
         if len(s.items) != 1:
-            raise Unsupported("with: several items")
+            # `with A as a, B as b: body`  ==  `with A as a: with B as b: body`
+            inner = ast.With(items=s.items[1:], body=s.body, lineno=s.lineno, col_offset=s.col_offset)
+            outer = ast.With(items=s.items[:1], body=[inner], lineno=s.lineno, col_offset=s.col_offset)
+            return self.s_With(ctx, fr, outer)
         item = s.items[0]
         cm = ctx.force(self.eval(ctx, fr, item.context_expr))
         enter = self.models.get(("with", getattr(cm, "cls", None) or getattr(cm, "dotted", None) or cm.kind))
@@ -1170,7 +1173,7 @@ class Engine:
             return VExt("builtins." + name)
         if name in EXC_PARENTS:
             return VExt("builtins." + name)
-        if name in ("bytes", "bytearray", "tuple", "object", "frozenset", "memoryview"):
+        if name in ("bytes", "bytearray", "tuple", "object", "frozenset", "memoryview", "print"):
             return VExt("builtins." + name)   # type names (isinstance checks)
         raise Unsupported(f"name {name} in {mod.name} line {getattr(node, 'lineno', '?')}")
 
